@@ -14,7 +14,7 @@ func init() {
 		ID:    "C19",
 		Title: "Audit and error logging record exactly what happened, once, intact",
 		Explanation: "Decides the decision structure and write discipline of logging, not the well-formedness of records for arbitrary bytes: R1 (incl. the precedence interruption status > would-be status > response status, under no other condition) the audit writer is invoked from exactly one call site (ProcessLogging), outside any loop, dominated by AuditEngine != Off, and under RelevantOnly the status tested is the interruption's, else the would-be interruption's, else the response status; " +
-			"R2 the error callback has one call site, guarded by callback != nil and the rule's Log flag; fired rules are appended to matchedRules only in MatchRule; the transaction's audit flag is raised only from the fired rule's Audit flag and reset for every transaction; " +
+			"R1 also: ctl:auditEngine stores the parsed mode under no other condition (any phase, logging included); R2 the error callback has one call site, guarded by callback != nil and the rule's Log flag; fired rules are appended to matchedRules only in MatchRule; the transaction's audit flag is raised only from the fired rule's Audit flag and reset for every transaction; " +
 			"R3 the audit record lists a fired rule's messages only under its Audit flag; R4 writers: the native formatter's section boundary is a fresh random string that does not depend on the record; the serial writer emits each record with a single Println on the shared logger (one atomic line), the concurrent writer uses its index logger only under its mutex, the JSON formatter returns json.Marshal's output unmodified; " +
 			"R5 the logging actions write the documented flags (C09.R4); R6 audit-part modification rejects A and Z and rebuilds the part list in canonical order.",
 		NotDecided: []string{
